@@ -612,3 +612,69 @@ def formatter_args_are_numbers(ctx, quals: Iterable[str]):
                  ctx.bad(construct, f"`{ast.unparse(n)}`: the argument is not an integer on every path (it is bound from "
                          f"{[ast.unparse(v)[:30] for v in defs.get(getattr(n.args[0], 'id', ''), [])][:3] or 'a non-local expression'}): hex() of a Symbol or a "
                          "string raises TypeError while the value is being evaluated", f.loc(n)))
+
+
+# --------------------------------------------------------------------------- an optional field is used as a value only when present
+def optional_field_guarded(ctx, modnames: Iterable[str], field: str = "_user_value"):
+    """`X.<field>` is None while no user value exists. Wherever it is used as something None cannot be - a key of the
+    bool<->str tables, an argument of int()/float()/min()/max() - a presence test of the same `X.<field>` dominates the
+    use, in the function itself or, for a helper that receives X, at every call site of the helper."""
+    from ..callgraph import CallGraph
+    repo = ctx.repo
+    cg = None
+    for m in modnames:
+        if m not in repo.modules:
+            continue
+        for f in repo.funcs_in(m):
+            uses = []
+            for n in own_nodes(repo, f):
+                tgt = None
+                if isinstance(n, ast.Subscript) and isinstance(n.slice, ast.Attribute) and n.slice.attr == field and "BOOL_TO_STR" in ast.unparse(n.value).upper():
+                    tgt = n.slice
+                elif isinstance(n, ast.Call) and isinstance(n.func, ast.Name) and n.func.id in ("int", "float", "min", "max"):
+                    for a in n.args:
+                        if isinstance(a, ast.Attribute) and a.attr == field:
+                            tgt = a
+                if tgt is not None:
+                    uses.append((n, tgt))
+            if not uses:
+                continue
+            ctx.analysed(f.qual)
+            res = Resolver(f.node)
+            fl = Flow(f.node, resolver=res).run()
+            for i, (n, tgt) in enumerate(uses):
+                recv = ast.unparse(tgt.value)
+                forms = {ast.unparse(tgt), ast.unparse(res.resolve(tgt))}
+                construct = f"{f.short}/{ast.unparse(n)[:40]} #{i + 1}: `{recv}.{field}` is present"
+                gs = fl.guards_at(n) or set()
+
+                def present(gset, fs):
+                    return any((f"{x} is None", False) in gset or (x, True) in gset or (f"{x} in bool_to_str", True) in gset for x in fs)
+
+                if present(gs, forms):
+                    ctx.ok(construct, f.loc(n))
+                    continue
+                # helper receiving X: every caller guards the argument's field
+                params = [a.arg for a in f.node.args.args]
+                if isinstance(tgt.value, ast.Name) and tgt.value.id in params:
+                    cg = cg or CallGraph(repo)
+                    pos = params.index(tgt.value.id) - (1 if params and params[0] == "self" else 0)
+                    callers = cg.callers(f.qual, weak=True)
+                    unguarded = []
+                    for caller, call in callers:
+                        if pos >= len(call.args):
+                            unguarded.append(caller.loc(call))
+                            continue
+                        a = call.args[pos]
+                        cres = Resolver(caller.node)
+                        cfl = Flow(caller.node, resolver=cres).run()
+                        afield = ast.Attribute(value=a, attr=field, ctx=ast.Load())
+                        if not present(cfl.guards_at(call) or set(), {ast.unparse(afield), ast.unparse(cres.resolve(afield))}):
+                            unguarded.append(caller.loc(call))
+                    if callers and not unguarded:
+                        ctx.ok(construct, f.loc(n), guarded_by="every call site", callers=len(callers))
+                        continue
+                    ctx.bad(construct, f"no presence test here, and the call site(s) {unguarded or '(none found)'} pass a symbol whose `{field}` may be None "
+                            f"(e.g. after unset_value() / a reset): `{ast.unparse(n)[:50]}` raises KeyError / TypeError", f.loc(n))
+                else:
+                    ctx.bad(construct, f"`{ast.unparse(tgt)}` may be None here (guards: {sorted(gs)[:4]})", f.loc(n))
